@@ -82,12 +82,12 @@ def _emitted_regexes(mods):
 
 def run(ck):
     ck.rule("R1", "no function reachable from emitted code writes to stdout", floor=30)
-    ck.rule("R2", "%-templates of the C translator / code generator are well formed", floor=60)
+    ck.rule("R2", "%-templates of the C translator / code generator are well formed", floor=57)
     ck.rule("R3", "each operator reaches the C operation of its reference meaning", floor=22)
-    ck.rule("R4", "signed division on 32/64-bit operands excludes INT_MIN / -1", floor=4)
-    ck.rule("R5", "native-only helpers are guarded by the operand width", floor=8)
+    ck.rule("R4", "signed division on 32/64-bit operands excludes INT_MIN / -1", floor=2)
+    ck.rule("R5", "native-only helpers are guarded by the operand width", floor=5)
     _bignum_rules(ck)
-    ck.rule("TC", "the translation memo table is private to the translator object, keyed by the expression itself, and filled by the class's own handler", floor=4)
+    ck.rule("TC", "the translation memo table is private to the translator object, keyed by the expression itself, and filled by the class's own handler", floor=2)
     from rules._transcache import translator_cache_rules
     translator_cache_rules(ck, "TC")
 
